@@ -628,7 +628,12 @@ class AgnosticOpticalElement(OpticalElement):
                     self._instance_data_cache[request_keys[0]] = instance_data
                     break
             else:
-                # Item does not yet exist. Create instanceData element
+                # Item does not yet exist. The instance keeps its own copies of the grids: the caller may
+                # change his grid objects in place afterwards, but the cache key describes these coordinates.
+                input_grid = None if input_grid is None else input_grid.copy()
+                output_grid = None if output_grid is None else output_grid.copy()
+
+                # Create instanceData element
                 instance_data = InstanceData(input_grid, output_grid, wavelength)
                 self.make_instance(instance_data, input_grid, output_grid, wavelength)
 
